@@ -248,14 +248,21 @@ func (nd *KVNode) geoRadiusGeneric(conn redcon.Conn, cmd redcon.Command, stype s
 		option := strings.ToLower(string(opts[i]))
 		switch option {
 		case "withdist":
+			// a repeated option must not be counted twice: optLen announces the reply length
+			if !withdist {
+				optLen++
+			}
 			withdist = true
-			optLen++
 		case "withcoord":
+			if !withcoords {
+				optLen++
+			}
 			withcoords = true
-			optLen++
 		case "withhash":
+			if !withhash {
+				optLen++
+			}
 			withhash = true
-			optLen++
 		case "asc":
 			sortT = SORT_ASC
 		case "desc":
